@@ -80,6 +80,14 @@ M = [
     ("c16-print-tm-no-blank", "C16", "tm_algorithms.py", "    out.write('blank {}\\n'.format(blank))\n", ""),
     ("c16-print-nfa-one-label", "C16", "nfa_algorithms.py", "            transitions['{} {}'.format(p, q)].append(a)\n    for pq in sorted(transitions.keys()):\n        out.write('{} {}\\n'.format(pq, ' '.join(transitions[pq])))\n    result = out.getvalue()\n    out.close()\n    return result\n\n\ndef automaton_to_nfa", "            transitions['{} {}'.format(p, q)].append(a)\n    for pq in sorted(transitions.keys()):\n        out.write('{} {}\\n'.format(pq, transitions[pq][0]))\n    result = out.getvalue()\n    out.close()\n    return result\n\n\ndef automaton_to_nfa"),
     ("c16-simple-print-parens", "C16", "regexp.py", "        if n1:\n            x1 = '({})'.format(x1)\n        if n2:\n            x2 = '({})'.format(x2)\n        return '{}{}'.format(x1, x2)", "        if n1:\n            x1 = '({})'.format(x1)\n        return '{}{}'.format(x1, x2)"),
+    ("c12-product-extra-finals", "C12", "notebook_dfa.py", "    for q in answer.F - D.F:\n        feedback.append('The state {} should not be final'.format(q))\n\n    return feedback", "    return feedback"),
+    ("c12-compare-missing-only", "C12", "language_generator.py", "    elif len(A2minusA1) > 0:\n        word = A2minusA1[0]", "    elif len(A2minusA1) > 1:\n        word = A2minusA1[0]"),
+    ("c12-max-states", "C12", "notebook.py", "    if 0 < max_states < len(A.Q):", "    if 0 < max_states < len(A.Q) - 1:"),
+    ("c12-nfa2dfa-initial", "C12", "notebook_nfa2dfa.py", "    if extract_states(answer.q0) != extract_states(D.q0):", "    if len(extract_states(answer.q0)) != len(extract_states(D.q0)):"),
+    ("c12-leftmost-any-variable", "C12", "notebook_cfg.py", "        elif derivation_type == 'leftmost':\n            return {variables[0]}", "        elif derivation_type == 'leftmost':\n            return set(variables)"),
+    ("c12-chomsky-unit-check", "C12", "notebook_chomsky.py", "        if phase >= 3:\n            feedback = feedback + check_cfg_has_no_unit_productions(G1)", "        if phase >= 4:\n            feedback = feedback + check_cfg_has_no_unit_productions(G1)"),
+    ("c12-minimal-count", "C12", "notebook_dfa.py", "        if len(D.Q) != len(answer.Q):", "        if len(D.Q) > len(answer.Q):"),
+    ("c12-reverse-language", "C12", "notebook_dfa.py", "        L2 = language_reverse(generate_language(D, length))", "        L2 = language_reverse(generate_language(D, length - 1))"),
     ("c06-gnfa-overwrite", "C06", "regexp_algorithms.py", "            delta1[q, q1] = regexp.Sum(delta1[q, q1], regexp.Symbol(a))", "            delta1[q, q1] = regexp.Symbol(a)"),
 ]
 
